@@ -51,10 +51,13 @@ pub fn run_case(id: &str, r: &mut Rng, out: &mut String) {
     let root = scratch_root().join(id.replace(|ch: char| !ch.is_ascii_alphanumeric(), "_"));
     let home = root.join("home");
     let _ = std::fs::create_dir_all(&home);
-    if r.chance(55) {
+    let k = r.below(100);
+    if k < 45 {
         files_case(id, r, &root, &home, out);
-    } else {
+    } else if k < 80 {
         summary_case(id, r, &root, &home, out);
+    } else {
+        symbase_case(id, r, &root, &home, out);
     }
     let _ = std::fs::remove_dir_all(&root);
 }
@@ -180,6 +183,93 @@ fn summary_case(id: &str, r: &mut Rng, root: &Path, home: &Path, out: &mut Strin
         }
     }
     out.push_str(&format!("repro {}\nend\n", oneline(&format!("acb {}\n--- in.csv\n{}", args.join(" "), csv))));
+}
+
+/// kind=symbase (C16): `acb -b SPEC... file` as a child process.  What `parse_initial_status` (the
+/// library's own parser of the specifications) rejects, the command line must reject before any
+/// processing (non-zero exit, nothing on stdout); what it accepts must print what the library run
+/// with those opening positions prints.
+fn symbase_case(id: &str, r: &mut Rng, root: &Path, home: &Path, out: &mut String) {
+    use acb::app::input_parse::parse_initial_status;
+    use acb::app::outfmt::text::TextWriter;
+    use acb::app::run_acb_app_to_writer;
+    use acb::portfolio::io::tx_csv::TxCsvParseOptions;
+    let c = app::gen_case(r);
+    if c.rows.is_empty() {
+        return;
+    }
+    let csv = app::txs_to_csv(&c.rows);
+    let _ = std::fs::write(root.join("in.csv"), &csv);
+    let sec0 = c.rows[0].security.clone();
+    let good = [format!("{}:10:100", sec0), "ZZZ:1.5:30".to_string(), format!("{}:0:0", sec0), "QQQ:7:0".to_string()];
+    let bad = ["", "   ", "FOO:10", ":1:1", "FOO:-1:5", "FOO:x:1", "FOO:1:y", "FOO:1:2:3", "FOO", "\t"];
+    let mut specs: Vec<String> = Vec::new();
+    for _ in 0..(1 + r.below(2)) {
+        specs.push(r.pick(&good).clone());
+    }
+    let malformed = r.chance(50);
+    if malformed {
+        let pos = r.below(specs.len() as u64 + 1) as usize;
+        specs.insert(pos, r.pick(&bad).to_string());
+    }
+    let mut args: Vec<String> = Vec::new();
+    for sp in &specs {
+        args.push("-b".into());
+        args.push(sp.clone());
+    }
+    args.push("in.csv".into());
+    let (rc, stdout) = run_acb(home, root, &args);
+    let lib = parse_initial_status(&specs);
+    out.push_str(&format!("case {} cli kind=symbase malformed={} rows={}\n", id, if malformed { 1 } else { 0 }, c.rows.len()));
+    match lib {
+        Err(_) => {
+            if rc != 0 && stdout.trim().is_empty() {
+                out.push_str(&format!("impl same exit={} bytes=0\n", rc));
+            } else {
+                out.push_str(&format!(
+                    "impl differ exit={}/nonzero a --symbol-base list that parse_initial_status rejects was accepted: the run printed {} bytes\n",
+                    rc,
+                    stdout.len()
+                ));
+            }
+        }
+        Ok(inits) => {
+            let readers = vec![DescribedReader::from_string("in.csv".to_string(), csv.clone())];
+            let libout = catch(move || {
+                let (wh, sb) = WriteHandle::string_buff_write_handle();
+                let (eh, _eb) = WriteHandle::string_buff_write_handle();
+                let mut writer = TextWriter::new(wh);
+                let res = async_std::task::block_on(run_acb_app_to_writer(
+                    &mut writer,
+                    readers,
+                    inits,
+                    &TxCsvParseOptions::default(),
+                    false,
+                    false,
+                    app::rate_loader(),
+                    eh,
+                ));
+                let s = sb.borrow().as_str().to_string();
+                (res.is_ok(), s)
+            });
+            match libout {
+                Ok((ok, text)) => {
+                    // the front end appends a list of the failing securities to the report
+                    let rest_ok = stdout.starts_with(&text) && {
+                        let rest = stdout[text.len()..].trim();
+                        rest.is_empty() || rest.starts_with("[!] There are errors for the following securities")
+                    };
+                    if rest_ok && (ok == (rc == 0)) {
+                        out.push_str(&format!("impl same exit={} bytes={}\n", rc, stdout.len()));
+                    } else {
+                        out.push_str(&format!("impl differ exit={}/{} {}\n", rc, if ok { 0 } else { 1 }, oneline(&first_diff_line(&stdout, &text))));
+                    }
+                }
+                Err(_) => out.push_str(&format!("impl skipped exit={}\n", rc)),
+            }
+        }
+    }
+    out.push_str(&format!("repro {}\nend\n", oneline(&format!("acb {}\n--- in.csv\n{}", args.iter().map(|a| format!("'{}'", a)).collect::<Vec<_>>().join(" "), csv))));
 }
 
 pub fn cleanup() {
